@@ -32,6 +32,9 @@ pub struct GenCfg {
     pub builtins: Vec<&'static str>,
     pub p_repeat_in_set: u32,
     pub shuffle_sets: bool,
+    /// sometimes put a context rule over several single characters in front of one rule per
+    /// character (several terminal states sharing a guarded top rule with different fallbacks)
+    pub cover_ctx: bool,
 }
 
 impl GenCfg {
@@ -58,6 +61,7 @@ impl GenCfg {
             builtins: vec!["ascii_lowercase", "ascii_digit", "ascii_alphabetic"],
             p_repeat_in_set: 2,
             shuffle_sets: false,
+            cover_ctx: false,
         }
     }
 }
@@ -101,6 +105,7 @@ pub fn family_cfg(family: &str, rng: &mut Rng) -> GenCfg {
             c.shuffle_sets = true;
         }
         "rctx" => {
+            c.cover_ctx = true;
             c.letters = vec!['a', 'b', 'c'];
             c.rules = (2, 5);
             c.depth = 2;
@@ -457,6 +462,41 @@ impl<'a> Gen<'a> {
                 };
                 let n_rules = self.rng.range(lo, self.cfg.rules.1.max(lo));
                 let mut entries = vec![];
+                if self.cfg.cover_ctx && self.rng.chance(1, 3) && self.cfg.letters.len() >= 2 {
+                    let mut ls = self.cfg.letters.clone();
+                    self.rng.shuffle(&mut ls);
+                    let k = self.rng.range(2, ls.len().min(3));
+                    let chars: Vec<char> = ls[..k].to_vec();
+                    let cover = if self.rng.chance(1, 2) {
+                        let mut it = chars.iter();
+                        let mut t = Re::Chr(*it.next().unwrap());
+                        for c in it {
+                            t = Re::alt(t, Re::Chr(*c));
+                        }
+                        t
+                    } else {
+                        Re::Set(chars.iter().map(|c| SetItem::C(*c)).collect())
+                    };
+                    let ctx = self.gen_ctx();
+                    let act = self.gen_action(error_type, &names, named);
+                    entries.push(Entry::Rule(Rule {
+                        id: 0,
+                        re: cover,
+                        ctx: Some(ctx),
+                        act,
+                    }));
+                    for c in chars {
+                        if self.rng.chance(4, 5) {
+                            let act = self.gen_action(error_type, &names, named);
+                            entries.push(Entry::Rule(Rule {
+                                id: 0,
+                                re: Re::Chr(c),
+                                ctx: None,
+                                act,
+                            }));
+                        }
+                    }
+                }
                 for _ in 0..n_rules {
                     entries.push(Entry::Rule(self.gen_rule(error_type, &names, named)));
                 }
@@ -540,6 +580,32 @@ pub fn gen_family_spec(family: &str, seed: u64, index: usize) -> Spec {
             let cfg = family_cfg(family, &mut rng);
             let mut g = Gen { rng: &mut rng, cfg };
             match family {
+                "rulesets" => {
+                    // one third of the definitions end with rule sets that have NO terminal accepting
+                    // state (every rule ends in a loop), so that no removed state follows their entry
+                    let mut spec = g.gen_spec();
+                    let roll = g.rng.below(6);
+                    let k = if roll < 2 { 1 } else if roll == 2 { 2 } else { 0 };
+                    let n = spec.sets.len();
+                    for si in n.saturating_sub(k)..n {
+                        if si == 0 {
+                            continue;
+                        }
+                        let l = g.cfg.letters[g.rng.below(g.cfg.letters.len())];
+                        for e in spec.sets[si].entries.iter_mut() {
+                            if let Entry::Rule(r) = e {
+                                if !contains_eoi(&r.re, &Env::new()) {
+                                    r.re = Re::cat(r.re.clone(), Re::plus(Re::Chr(l)));
+                                }
+                            }
+                        }
+                    }
+                    if check_wf(&spec).is_ok() {
+                        spec
+                    } else {
+                        g.gen_spec()
+                    }
+                }
                 "recover" => gen_recover_spec(&mut g),
                 "scope" => gen_scope_spec(&mut g),
                 "realistic" => gen_realistic_spec(&mut g),
